@@ -101,3 +101,23 @@ Theorem header_handoff_no_deadlock : hdeadlocks true true = [] /\ hdeadlocks tru
 Proof. split; vm_compute; reflexivity. Qed.
 Theorem header_handoff_old_deadlocks_refuted : hdeadlocks false false = [(1, 0)%nat].
 Proof. vm_compute. reflexivity. Qed.
+
+(* ---- the reference and the annotation have to be in the same coordinates: the check `variants` makes, and `sam variants`
+   too since repair D21 (before it, sam variants made none: old_sam_variants_coords) ---- *)
+Inductive anno_coords := GbOrigin (origin_len : nat) | GffRegions (region_ends : list nat).
+Definition coords_ok (reflen : nat) (a : anno_coords) : bool :=
+  match a with
+  | GbOrigin n => Nat.eqb reflen n
+  | GffRegions [] => true                      (* no ##sequence-region line: nothing to compare with *)
+  | GffRegions [e] => Nat.eqb reflen e
+  | GffRegions _ => false                      (* more than one ##sequence-region *)
+  end.
+Definition old_sam_variants_coords (reflen : nat) (a : anno_coords) : bool := true.
+Lemma coords_mismatch_refused reflen a :
+  match a with GbOrigin n => reflen <> n | GffRegions [e] => reflen <> e | GffRegions [] => False | GffRegions _ => True end ->
+  coords_ok reflen a = false.
+Proof.
+  destruct a as [n|[|e [|e' t]]]; cbn [coords_ok]; intros H; try reflexivity; try contradiction; apply Nat.eqb_neq; exact H.
+Qed.
+Lemma old_sam_variants_coords_refuted : exists reflen a, coords_ok reflen a = false /\ old_sam_variants_coords reflen a = true.
+Proof. exists 33%nat, (GffRegions [30%nat]). split; reflexivity. Qed.
